@@ -70,6 +70,9 @@ struct Plan
   u64 idx = 0;
   std::map<std::string, std::string> hdr;
   std::vector<Op> ops;
+  // plans executed first in the same process (their verdicts are ignored): only needed when a
+  // violation depends on process-wide state left behind by earlier, unrelated runs
+  std::vector<Plan> pre;
   std::string text() const;
   static bool parse(const std::string & text, Plan & out, std::string & err);
   u64 hash() const { return hstr(text()); }
